@@ -1105,6 +1105,7 @@ def run_imports_family(al, st):
     ops, _names = imports_ops(al)
     history = []
     per_sig = {}
+    explained = []
     for op in ops:
         case = {"fam": "imports", "op": op, "seed": al.seed}
         r = check_imports_op(al, op, st)
@@ -1115,8 +1116,21 @@ def run_imports_family(al, st):
             part, exp, obs, src = r
             per_sig[part] = per_sig.get(part, 0) + 1
             if per_sig[part] <= 2:
-                # does it fail alone, or only after an earlier operation of this process?
-                prelude = core.find_prelude(MODNAME, case, history, max_tries=len(IMP_BINDERS) * 4 + 8)
+                # does it fail alone, or only after an earlier operation of this process?  candidates, least promising
+                # first (find_prelude walks the list backwards): the few most recent operations, every earlier binder,
+                # one binder of each kind, and whatever already explained another failure of this run
+                binders = [h for h in history if h["op"]["role"] == "binder"]
+                reps = []
+                for kind in IMP_BINDERS:
+                    reps += [h for h in binders if h["op"]["kind"] == kind][:1]
+                cand = []
+                for h in history[-3:] + binders + reps + explained:
+                    if h in cand:
+                        cand.remove(h)
+                    cand.append(h)
+                prelude = core.find_prelude(MODNAME, case, cand, max_tries=len(cand))
+                if prelude:
+                    explained.append(prelude[0])
                 if prelude is None:
                     st.extra.setdefault("harness_errors", []).append("imports: failure not reproducible in a fresh interpreter: %r" % (case,))
                 else:
